@@ -392,7 +392,7 @@ class WaveSimCuda(WaveSim):
 
     def s_ppo_to_ppi(self, time=0.0):
         grid_dim = self._grid_dim(self.sims, self.s_len)
-        ppo_to_ppi_gpu[grid_dim, self._block_dim](self.s, self.c_locs, time, self.ppi_offset, self.ppo_offset)
+        ppo_to_ppi_gpu[grid_dim, self._block_dim](self.s, self.c_locs, time, self.ppi_offset, self.ppo_offset, len(self.circuit.io_nodes))
 
 
 @cuda.jit()
@@ -502,8 +502,9 @@ def wave_capture_gpu(c, s, c_locs, c_caps, ppo_offset, time, s_sqrt2, seed):
 
 
 @cuda.jit()
-def ppo_to_ppi_gpu(s, c_locs, time, ppi_offset, ppo_offset):
+def ppo_to_ppi_gpu(s, c_locs, time, ppi_offset, ppo_offset, ppio_start):
     x, y = cuda.grid(2)
+    if y < ppio_start: return  # only state elements are PPO/PPI; ports that are read and driven keep their assignment (as in WaveSim.s_ppo_to_ppi)
     if y >= s.shape[1]: return
     if x >= s.shape[2]: return
 
